@@ -690,7 +690,7 @@ func ruleSendGuard(c *Ctx) {
 			what := ""
 			switch x := in.(type) {
 			case *ssa.Call:
-				if pk, n, ok := stdCall(in); ok && pk == "reflect" && n == "Value.Send" {
+				if pk, n, ok := stdCall(in); ok && pk == "reflect" && (n == "Value.Send" || n == "Value.TrySend") {
 					payload, what = x.Call.Args[1], "reflect.Value.Send"
 				}
 			case *ssa.Send:
@@ -744,7 +744,7 @@ func ruleSendGuard(c *Ctx) {
 		nops, inLoop := 0, false
 		allInstrs(fn, func(in ssa.Instruction) {
 			pk, n, ok := stdCall(in)
-			if !ok || pk != "reflect" || !(n == "Value.Send" || n == "Value.Recv" || n == "Select" || n == "Value.Close") {
+			if !ok || pk != "reflect" || !(n == "Value.Send" || n == "Value.TrySend" || n == "Value.TryRecv" || n == "Value.Recv" || n == "Select" || n == "Value.Close") {
 				return
 			}
 			nops++
